@@ -75,15 +75,19 @@ def prepare(scratch, instrument=True):
     rep, out = copy_repo(repo, instrument)
     sim = os.path.join(scratch, "sim")
     shutil.copytree(os.path.join(VERIF, "sim"), sim, ignore=shutil.ignore_patterns("instr", "overlay", "zsimrt"))
+    sys.path.insert(0, os.path.join(VERIF, "lib"))
+    import overlay
+    try:
+        extra_replaces = overlay.patched_module_copies(scratch)
+    except RuntimeError as e:
+        raise InfraError("third-party patch failed: %s" % e)
     with open(os.path.join(sim, "go.mod"), "w") as f:
-        f.write("module verifsim\n\ngo 1.26\n\nrequire (\n\tgo.brendoncarroll.net/p2p v0.0.0\n\tgithub.com/anishathalye/porcupine v1.3.0\n)\n\nreplace go.brendoncarroll.net/p2p => ../repo\n")
+        f.write("module verifsim\n\ngo 1.26\n\nrequire (\n\tgo.brendoncarroll.net/p2p v0.0.0\n\tgithub.com/anishathalye/porcupine v1.3.0\n)\n\nreplace go.brendoncarroll.net/p2p => ../repo\n" + "".join(l + "\n" for l in extra_replaces))
     sums = open(os.path.join(REPO, "go.sum")).read()
     sums += open(os.path.join(VERIF, "lib", "extra.sum")).read()
     with open(os.path.join(sim, "go.sum"), "w") as f:
         f.write(sums)
     ov = os.path.join(scratch, "overlay")
-    sys.path.insert(0, os.path.join(VERIF, "lib"))
-    import overlay
     if overlay.main(ov) != 0:
         raise InfraError("runtime overlay generation failed")
     return repo, sim, os.path.join(ov, "overlay.json")
